@@ -571,46 +571,6 @@ func c08PostfixAfterNewline(n *parser.ASTNode) bool {
 	})
 }
 
-func c08IsOp(n *parser.ASTNode) bool {
-	b, ld := c08Binding(n)
-	return b != 0 && (ld || n.Name == parser.NodeNOT)
-}
-
-// c08KeywordOperand: an operator expression as the operand of a sink attribute (kindmatch … suppresses), or
-// a `let` expression as an operand of an operator: ppNeedsBrackets does not regard these keywords as
-// prefix operators and never writes the brackets.
-func c08KeywordOperand(n *parser.ASTNode, parent *parser.ASTNode) bool {
-	if n == nil {
-		return false
-	}
-	switch n.Name {
-	case parser.NodeKINDMATCH, parser.NodeSCOPEMATCH, parser.NodeSTATEMATCH, parser.NodePRIORITY, parser.NodeSUPPRESSES:
-		for _, c := range n.Children {
-			if c != nil && c08IsOp(c) {
-				return true
-			}
-		}
-	case parser.NodeLET:
-		if parent != nil && c08IsOp(parent) {
-			return true
-		}
-		// `let (a := 1)`: the operand of let is parsed with right binding 20, an infix operand binding weaker is lost
-		for _, c := range n.Children {
-			if c != nil {
-				if b, ld := c08Binding(c); ld && b != 0 && b <= 20 {
-					return true
-				}
-			}
-		}
-	}
-	for _, c := range n.Children {
-		if c08KeywordOperand(c, n) {
-			return true
-		}
-	}
-	return false
-}
-
 var c08Dir string
 
 // c08FormatFile runs the in-place format tool on a scratch file: ok = the file now holds exactly
@@ -661,7 +621,7 @@ func c08Run(payload string) string {
 		return "PPERR " + oneLine(err.Error())
 	}
 	inside, ownBlank := c08Inside(ast, true)
-	rtWild := c08UnstablePost(ast, txt) || inside || c08PostfixAfterNewline(ast) || c08KeywordOperand(ast, nil)
+	rtWild := c08UnstablePost(ast, txt) || inside || c08PostfixAfterNewline(ast)
 	idemWild := rtWild || ownBlank || c08HasPre(ast) || c08BlockThenStatement(ast)
 	sig := c08Sig(ast, txt)
 	rt, idem := "ok", "na"
